@@ -171,7 +171,7 @@ def run(cx):
         r.check(all(got_.get(k_, 0) == v_ for k_, v_ in want_.items()) and not in_setup, f"parse/script[{label}]-one-tick-per-animated-display", (pm, pf), f"script `{label}`: LCDTick nodes per loop() pass {got_} (in setup: {in_setup}), expected {want_}: a display advanced twice per pass runs its animations at double speed, data-dependent ticks break the rate limit's meaning")
 
     # ---- C18-NAMES ---------------------------------------------------------------------------
-    r = cx.rule("C18-NAMES", "animation names agree between host, parser and both emitter tables; every named C++ helper exists with the arity of its call; the host tick handles exactly those names", floor=12)
+    r = cx.rule("C18-NAMES", "animation names agree between host, parser and both emitter tables; every named C++ helper exists with the arity of its call (that the host handles every name is decided by evaluation in C18-LIFE)", floor=10)
     hcls = hm.cls("LCD")
     host_names = None
     for st in hcls.body:
@@ -206,66 +206,12 @@ def run(cx):
         r.check(st_tbl[k] in fns and len(fns[st_tbl[k]]["params"]) == 7, f"start[{k}]/helper-exists-arity-7", (em.rel, snippet_line), f"{st_tbl[k]}: {fns.get(st_tbl[k], {}).get('params')}")
         r.check(tk_tbl.get(k) in fns and len(fns[tk_tbl[k]]["params"]) == 3, f"tick[{k}]/helper-exists-arity-3", (em.rel, snippet_line), f"{tk_tbl.get(k)}")
         r.check(st_tbl[k].endswith("_" + k) and tk_tbl.get(k, "").endswith("_" + k), f"tables[{k}]/style-in-function-name", (em.rel, em.const("_LCD_ANIMATION_START_FUNCS").lineno), f"{k} -> {st_tbl[k]}, {tk_tbl.get(k)}")
-    tick = hm.func("LCD.tick")
-    handled = set(re.findall(r"state\.animation == '(\w+)'", norm(tick)))
-    r.check(handled == host_names, "host.tick/handles-every-name", (hm, tick), f"host tick handles {sorted(handled)}")
-    animate = hm.func("LCD.animate")
-    handled_a = set(re.findall(r"animation_name == '(\w+)'", norm(animate)))
-    r.check(handled_a == host_names, "host.animate/handles-every-name", (hm, animate), f"host animate handles {sorted(handled_a)}")
-
     # ---- C18-RATE ----------------------------------------------------------------------------
     rule_rate(cx, em, hm, fns, st_tbl, tk_tbl, snippet_line)
     tick = hm.func("LCD.tick")
 
-    # ---- C18-ACTIVE --------------------------------------------------------------------------
-    r = cx.rule("C18-ACTIVE", "an animation is deactivated only when it is not looping (`active = false` under !loop, or `active = loop`), every non-looping style can deactivate, start activates", floor=14)
-    for n, f in anim.items():
-        asg = assigns_to(f["body"], "state.active")
-        if "_start_" in n:
-            r.check([show(s["e"]) for s, _c in asg] == ["state.active = true"], f"{n}/activates", (em.rel, snippet_line), f"start sets {[show(s['e']) for s, _c in asg]}")
-            continue
-        offs = 0
-        for s, cs in asg:
-            e = s["e"]
-            val = show(e[3])
-            if val == "state.loop":
-                offs += 1
-                r.ok(f"{n}: active = loop")
-                continue
-            if val == "false":
-                offs += 1
-                under = any((c == "!state.loop" and t) or (c == "state.loop" and not t) or ("!state.loop" in c and "&&" in c and t) for c, t in cs)
-                r.check(under, f"{n}/deactivates-only-when-not-looping", (em.rel, snippet_line), f"`{show(e)}` under {cs}: a looping animation would stop")
-            else:
-                r.fail(f"{n}/active-assigned[{val}]", (em.rel, snippet_line), f"`{show(e)}`")
-        r.check(offs >= 1, f"{n}/can-finish", (em.rel, snippet_line), "a non-looping animation of this style can never become inactive")
-    for n_ in walk_local(tick):
-        if isinstance(n_, ast.Assign) and norm(n_.targets[0]) == "state.active":
-            v = norm(n_.value)
-            cs = lexical_conds(hm, n_)
-            ok = v == "state.loop" or (v == "False" and any((t == "state.loop" and not tv) or (t == "not state.loop" and tv) or ("not state.loop" in t and tv) for t, tv in cs))
-            r.check(ok, "host.tick/deactivates-only-when-not-looping", (hm, n_), f"`{stmt_key(n_)}` under {sorted(cs)}")
-
-    # ---- C18-PROGRESS ------------------------------------------------------------------------
-    r = cx.rule("C18-PROGRESS", "inside a tick the style's progress variable only steps towards its terminal value or is clamped/reset at it (so a non-looping animation reaches its end after a number of ticks linear in text length + width)", floor=8)
-    for style, (var, allowed) in PROGRESS.items():
-        f = fns.get(f"__redu_lcd_tick_{style}")
-        if f is None:
-            raise AnalysisError(f"__redu_lcd_tick_{style} vanished")
-        seen = set()
-        for s, cs in assigns_to(f["body"], var):
-            txt = show(s["e"])
-            seen.add(txt)
-            r.check(txt in allowed, f"tick_{style}/progress[{var}]-update", (em.rel, snippet_line), f"`{txt}` (under {cs[-2:]}) is not a step or a clamp at the terminal value; allowed: {sorted(allowed)}", sample=f"tick_{style}: {txt}")
-        r.check(bool(seen), f"tick_{style}/progress-advances", (em.rel, snippet_line), f"{var} never changes in the tick")
-    tw = fns["__redu_lcd_tick_typewriter"]
-    clamps = [(s, cs) for s, cs in assigns_to(tw["body"], "state.visible") if show(s["e"]) == "state.visible = length"]
-    r.check(all(any(c == "(state.visible > length)" and t for c, t in cs) for _s, cs in clamps), "tick_typewriter/clamp-only-above-length", (em.rel, snippet_line), "visible may only be clamped when it exceeds the text length")
-    fin = [(s, cs) for s, cs in assigns_to(tw["body"], "state.active") if show(s["e"]) == "state.active = false"]
-    r.check(any(any("(state.visible >= length)" in c and t for c, t in cs) for _s, cs in fin), "tick_typewriter/finishes-when-visible>=length", (em.rel, snippet_line), "typewriter must finish when the whole text is visible")
-    sc = fns["__redu_lcd_tick_scroll"]
-    fin = [(s, cs) for s, cs in assigns_to(sc["body"], "state.active") if show(s["e"]) == "state.active = false"]
-    r.check(any(any("(state.offset >= padded.length())" in c and t for c, t in cs) for _s, cs in fin), "tick_scroll/finishes-after-full-pass", (em.rel, snippet_line), "scroll must finish when the offset passes the padded text")
+    # ---- C18-LIFE (replaces the spelled ACTIVE / PROGRESS rules) ---------------------------
+    rule_life(cx, em, hm, fns, st_tbl, tk_tbl, snippet_line, host_names)
 
     # ---- C18-ROW -----------------------------------------------------------------------------
     c17.rule_dev_trunc(cx, "C18-ROW", em, only=lambda n: "_start_" in n or "_tick_" in n)
@@ -311,6 +257,93 @@ def _anim_struct(em):
                 raise AnalysisError(f"initial value `{raw}` of animation field {n} not understood")
         return st
     return fresh, enum
+
+
+def rule_life(cx, em, hm, fns, st_tbl, tk_tbl, snippet_line, host_names):
+    """life cycle decided by evaluation: firmware helpers (C semantics, cell model of the display) and the host LCD (checker's
+    interpreter) run every style on texts from empty to longer than the row, widths 8/16, both rows, looping or not, one
+    step per tick"""
+    import itertools
+    from .. import ckern
+    from . import c04, c17
+    r = cx.rule("C18-LIFE", "for every style x width 8/16 x row x text length (0 .. wider than the row) x loop, stepping once per tick: every frame stays in the animation's row and inside the display width (firmware: cell model; host: buffer rows keep their width, the other row is untouched); a non-looping animation is inactive after at most 4*(len+cols)+8 steps and stays inactive, a looping one is still active after 6*(len+cols)+20 steps; the host accepts every animation name of the table and never raises", floor=300, exhaustive=True)
+    fresh, enum = _anim_struct(em)
+    n_bad = 0
+
+    def fail(key, where, msg):
+        nonlocal n_bad
+        n_bad += 1
+        if n_bad <= 4:
+            r.fail(key, where, msg)
+        else:
+            r.stat.obligations += 1
+            r.stat.failed += 1
+
+    for style in sorted(set(st_tbl) | set(host_names)):
+        sfn, tfn = st_tbl.get(style), tk_tbl.get(style)
+        for cols, row, loop in itertools.product((8, 16), (0, 1), (True, False)):
+            for tlen in (0, 1, 3, cols - 1, cols, cols + 1, cols + 9):
+                text = "abcdefghijklmnopqrstuvwxyz0123456789"[:tlen]
+                bound = 4 * (tlen + cols) + 8
+                steps = (6 * (tlen + cols) + 20) if loop else bound + 6
+                label = f"{style} on {cols}x2, row {row}, text of {tlen} characters, loop={loop}"
+                # firmware
+                if sfn in fns and tfn in fns:
+                    st = fresh()
+                    now = [50]
+                    k = ckern.CallKern(fns, env={"st": st, "lcdobj": 0}, consts=enum, max_steps=4_000_000)
+                    k.call_hooks["millis"] = lambda a_, _n=now: _n[0]
+                    fw_active = []
+                    try:
+                        k.ev(("call", sfn, [("var", "st"), ("var", "lcdobj"), ("lit", cols), ("lit", row), ("lit", '"' + text + '"'), ("lit", 10), ("lit", loop)]))
+                        for _i in range(steps):
+                            now[0] += 10
+                            k.ev(("call", tfn, [("var", "st"), ("var", "lcdobj"), ("lit", cols)]))
+                            fw_active.append(bool(st.get("active")))
+                    except ckern.KernUnsupported as e:
+                        raise AnalysisError(f"animation helpers of style {style} left the evaluable subset: {e}")
+                    d = c17.Display(cols, 2, ["." * cols, "." * cols])
+                    d.feed(k.events)
+                    if d.outside or d.rows_text()[1 - row] != "." * cols:
+                        fail(f"life[{style}]/firmware-frame-inside-row", (em.rel, snippet_line), f"{label}: the firmware " + (f"prints outside the display at {d.outside[:2]}" if d.outside else "draws into the other row"))
+                    elif any(nm_ in ("delay", "delayMicroseconds", "pulseIn") for nm_, _a in k.events):
+                        fail(f"life[{style}]/firmware-never-waits", (em.rel, snippet_line), f"{label}: the firmware helpers call a blocking wait")
+                    elif loop and not all(fw_active):
+                        fail(f"life[{style}]/firmware-looping-never-finishes", (em.rel, snippet_line), f"{label}: the looping firmware animation is inactive after {fw_active.index(False) + 1} steps")
+                    elif not loop and (any(fw_active[bound:]) or any(b_ and not a_ for a_, b_ in zip(fw_active, fw_active[1:]))):
+                        fail(f"life[{style}]/firmware-finishes-within-linear-bound", (em.rel, snippet_line), f"{label}: the firmware animation is {'still active after ' + str(bound) + ' steps' if any(fw_active[bound:]) else 're-activated after it finished'}")
+                    else:
+                        r.ok(None)
+                # host
+                o = c04.host_object(hm, "LCD", rs=12, en=11, d4=5, d5=4, d6=3, d7=2, cols=cols, rows=2)
+                before_other = o.buffer[1 - row]
+                try:
+                    out = dl.Interp(hm).call(hm.func("LCD.animate"), [o, style, row, text], {"speed_ms": 10, "loop": loop})
+                    if out.kind != "return":
+                        fail(f"life[{style}]/host-animate-accepts", (hm, hm.func("LCD.animate")), f"{label}: host animate() raises {out.value}")
+                        continue
+                    host_active, t_, bad = [], 50, None
+                    for _i in range(steps):
+                        t_ += 10
+                        out = dl.Interp(hm).call(hm.func("LCD.tick"), [o, t_])
+                        if out.kind != "return":
+                            bad = f"host tick() raises {out.value} at step {_i + 1}"
+                            break
+                        if [len(x) for x in o.buffer] != [cols, cols] or o.buffer[1 - row] != before_other:
+                            bad = f"after step {_i + 1} the host buffer is {o.buffer}: rows must keep {cols} cells and row {1 - row} must stay untouched"
+                            break
+                        host_active.append(any(getattr(v_, "active", False) for v_ in o.animations.values()))
+                except dl.Unsupported as e:
+                    raise AnalysisError(f"host animate/tick left the evaluable subset: {e}")
+                if bad:
+                    fail(f"life[{style}]/host-frame-inside-row", (hm, hm.func("LCD.tick")), f"{label}: {bad}")
+                elif loop and not all(host_active):
+                    fail(f"life[{style}]/host-looping-never-finishes", (hm, hm.func("LCD.tick")), f"{label}: the looping host animation is inactive after {host_active.index(False) + 1} steps")
+                elif not loop and (any(host_active[bound:]) or any(b_ and not a_ for a_, b_ in zip(host_active, host_active[1:]))):
+                    fail(f"life[{style}]/host-finishes-within-linear-bound", (hm, hm.func("LCD.tick")), f"{label}: the host animation is {'still active after ' + str(bound) + ' steps' if any(host_active[bound:]) else 're-activated after it finished'}")
+                else:
+                    r.ok(None)
+    return r
 
 
 def rule_rate(cx, em, hm, fns, st_tbl, tk_tbl, snippet_line):
